@@ -804,6 +804,11 @@ def load(I, arr, idx, node, env):
                 # the value at the mean mode, seen from the analysis of a generic mode: a number in its own right (the mean
                 # context evaluates it), here a symbol so that a test on it is a proper two-way branch and not a guess
                 val = alg.fn("meanmode", val) if isinstance(val, Expr) else Unknown("mean-mode entry read at a generic mode")
+        elif len(point) == 2 and arr.meta.get("spec") is not None and isinstance(val, Expr) and all(const_int(p) is not None for p in point.values()):
+            # one coefficient of a spectrum other than the mean: a number of its own (no other quantity of the computation equals it)
+            val = alg.fn("coefficient", val, alg.const(const_int(point[0])), alg.const(const_int(point[1])))
+        elif isinstance(val, Expr) and val.as_const() is not None and "points" not in arr.meta:
+            pass  # every entry of the array is that one constant
         else:
             val = Unknown("point read at fixed grid index")
         meta.pop("spec", None)
